@@ -15,7 +15,8 @@ other code, with effectful items —, unused variables / parameters, `let x = e;
   from the real parser);
 * direct oracle: the fixed program parses; when the original ran without error the fixed one prints the same and
   ends without error (real evaluator; differences re-run through `garden run`); repeating --fix reaches a fixed
-  point within 3 rounds.
+  point: no text of an earlier round comes back (cycle) and at most 12 rounds are needed (cascades of dependent
+  fixes legitimately take several).
 
 FAILURE KEYS (closed set; every observable failure maps to exactly one of them, deterministically):
   lint names L = slug of the fix description with the back-quoted part removed:
@@ -35,7 +36,8 @@ FAILURE KEYS (closed set; every observable failure maps to exactly one of them, 
                                        single-diagnostic culprits; the key lists the lints of a 1-minimal failing SUBSET of
                                        diagnostics found by delta debugging (deterministic order), i.e. the set of lints
                                        whose fixes must be applied together to see S
-  C22/no-fixed-point/<L>               lint L still offers a fix after three --fix rounds (one failure per such lint)
+  C22/no-fixed-point/<L>               repeating --fix cycles (an earlier text comes back) or needs more than 12 rounds; L = a lint
+                                       still offering a fix at that point (one failure per such lint)
   C22/fix-covers-other-code/remove-unused-value   the unused-literal deletion touches another statement
   C22/generator                        harness: a generated program does not parse
 """
@@ -227,6 +229,35 @@ class Classifier:
     def __init__(self, ctx, src, groups, before, skip):
         self.ctx, self.src, self.groups, self.before, self.skip = ctx, src, groups, before, skip
         self.cache = {}
+
+    def judge(self, a):
+        sy = set()
+        if a[0] == "parse-error":
+            sy.add("fixed-does-not-parse")
+        elif self.before[0] == "ok" and (a[0] != "ok" or a[2] != self.before[2]):
+            sy.add("behaviour-changed")
+        return sy
+
+    def pending_texts(self, subsets):
+        """Texts that have to be run to know the symptoms of these subsets (fills the cache for panics)."""
+        out = {}
+        for ss in subsets:
+            if ss in self.cache:
+                continue
+            t = apply_subset(self.src, [f for g in ss for f in self.groups[g]], self.skip)
+            if t is None:
+                self.cache[ss] = {"crash"}
+            else:
+                out[ss] = t
+        return out
+
+    def plan(self):
+        """Overlap analysis: (all groups, groups in overlaps, the others)."""
+        n = len(self.groups)
+        flat = [(g, f) for g in range(n) for f in self.groups[g]]
+        ov = [] if self.skip else overlapping_pairs([f for _, f in flat])
+        ogroups = sorted({flat[a][0] for a, b in ov} | {flat[b][0] for a, b in ov})
+        return tuple(range(n)), ogroups, tuple(g for g in range(n) if g not in ogroups)
 
     def symptoms(self, subsets):
         """For each subset (tuple of group indices): set of symptoms its application shows."""
@@ -427,42 +458,72 @@ def run(ctx):
         if f2[0] == t:
             rounds_hist[1] = rounds_hist.get(1, 0) + 1
         else:
-            pending.append((i, f2[0], 2))
+            pending.append((i, f2[0], 2, [srcs[i], t]))
+    # A fix may legitimately enable the next one (unused `let` -> unused literal -> the previous `let` becomes
+    # unused …), so a cascade can need several rounds; what must not happen is a text that comes back (a cycle:
+    # --fix never terminates) or no fixed point within MAX_ROUNDS.
+    MAX_ROUNDS = 12
+    later = []
     while pending:
-        rr = ctx.garden_batch(["fix " + hexs(t) for _, t, _ in pending])
+        rr = ctx.garden_batch(["fix " + hexs(t) for _, t, _, _ in pending])
         nxt, stuck = [], []
-        for (i, t, k), x in zip(pending, rr):
+        for (i, t, k, seen), x in zip(pending, rr):
             f = fix_result(x)
             if f is None:
-                # a later round broke the text: the round-1 oracle already judged round 1; attribute by lints offered
-                ctx.fail("C22/fixed-does-not-parse/later-round", "a later --fix round produced an unparseable program or "
-                         "panicked: %s" % (x or "")[:120], fixed=t, **rep_of(i))
+                # the output of the previous round (`t`) does not parse, or `check --fix` panics on it: the
+                # program to classify is the text that round started from
+                if x and x.startswith("PANIC"):
+                    later.append((i, t, "crash"))
+                else:
+                    later.append((i, seen[-1], "fixed-does-not-parse"))
             elif f[0] == t:
                 rounds_hist[k] = rounds_hist.get(k, 0) + 1
-            elif k >= 3:
-                stuck.append((i, t, f[0]))
+            elif f[0] in seen or k >= MAX_ROUNDS:
+                stuck.append((i, t, f[0], "the text of an earlier round comes back (cycle)" if f[0] in seen
+                              else "no fixed point after %d rounds" % MAX_ROUNDS))
             else:
-                nxt.append((i, f[0], k + 1))
+                nxt.append((i, f[0], k + 1, seen + [t]))
         if stuck:
-            cc = ctx.garden_batch(["check " + hexs(t) for _, t, _ in stuck], shards=1)
-            for (i, t, t4), x in zip(stuck, cc):
+            cc = ctx.garden_batch(["check " + hexs(t) for _, t, _, _ in stuck], shards=1)
+            for (i, t, t4, why), x in zip(stuck, cc):
                 pc = parse_check(x)
                 for l in sorted({slug(f[0]) for d in (pc[1] if pc else []) for f in d[3]}) or ["none"]:
-                    ctx.fail("C22/no-fixed-point/" + l, "--fix still changes the program after 3 rounds (lint still "
-                             "offering a fix: %s)" % l, after3=t, after4=t4, **rep_of(i))
+                    ctx.fail("C22/no-fixed-point/" + l, "repeating --fix does not reach a fixed point: %s (lint still "
+                             "offering a fix: %s)" % (why, l), round_k=t, round_k_plus_1=t4, **rep_of(i))
         pending = nxt
-    # ---- attribute every symptom to keys of the closed set
+    # ---- attribute every symptom to keys of the closed set (the replays of all programs are batched)
     attributed = {}
-    for i, sym in symptomatic:
-        cl = Classifier(ctx, srcs[i], stage[i][0], before[i], skip_variant)
-        keys = cl.classify(sym)
+    entries = [dict(i=i, src=srcs[i], groups=stage[i][0], before=before[i], fixed=stage[i][1], sym=sym, round=1)
+               for i, sym in symptomatic]
+    if later:
+        lr = ctx.garden_batch(["check " + hexs(t) for _, t, _ in later] + [RC.run_line(t) for _, t, _ in later])
+        for k, (i, t, sym) in enumerate(later):
+            pc = parse_check(lr[k])
+            groups = [d[3] for d in (pc[1] if pc else []) if d[3]]
+            entries.append(dict(i=i, src=t, groups=groups, before=RC.run_result(lr[len(later) + k]), fixed=None,
+                                sym=sym, round=2))
+    for e in entries:
+        e["cl"] = Classifier(ctx, e["src"], e["groups"], e["before"], skip_variant)
+        e["plan"] = e["cl"].plan()
+
+    def prefetch(wanted):
+        jobs = [(c, ss, t) for c, subsets in wanted for ss, t in c.pending_texts(subsets).items()]
+        if jobs:
+            rr = ctx.garden_batch([RC.run_line(t) for _, _, t in jobs])
+            for (c, ss, _), x in zip(jobs, rr):
+                c.cache[ss] = c.judge(RC.run_result(x))
+    prefetch([(e["cl"], [e["plan"][0], e["plan"][2]] + [(g,) for g in e["plan"][2]]) for e in entries])
+    for e in entries:
+        sym = e["sym"]
+        keys = e["cl"].classify(sym)
         attributed[sym] = attributed.get(sym, 0) + 1
         for key in keys:
             ctx.fail("C22/" + key, "%s: after `check --fix` the program %s" % (key, {
                 "crash": "is not produced: apply_fixes panics",
                 "fixed-does-not-parse": "has parse errors",
                 "behaviour-changed": "prints or ends differently although the original ran without error"}[sym]),
-                fixed=stage[i][1], before_run=before[i], **rep_of(i))
+                fixed=e["fixed"], before_run=e["before"], src=e["src"], original=srcs[e["i"]], fix_round=e["round"],
+                cmd="garden check --fix --stdout f.gdn")
     # ---- the CLI on a sample
     def cli_job(i):
         path = os.path.join(scratch, "c%d.gdn" % i)
